@@ -557,6 +557,14 @@ class _FormatToFString(ast.NodeTransformer):
         return js
 
 
+def norm_name(f: ast.AST) -> str:
+    if isinstance(f, ast.Name):
+        return f.id
+    if isinstance(f, ast.Attribute):
+        return f.attr
+    return ''
+
+
 class Desugar(ast.NodeTransformer):
     def __init__(self, tables, classes=()):
         self.tables = tables            # name -> rows (module level and class level literal tables)
@@ -774,6 +782,48 @@ class Desugar(ast.NodeTransformer):
                         out.append(nb)
                 i += 1
                 continue
+            # D10a: V = Counter(E for x in IT if C)   ->   V = {} ; for x in IT: if C: V[E] = V.get(E, 0) + 1
+            if isinstance(st, ast.Assign) and len(st.targets) == 1 and isinstance(st.targets[0], ast.Name) and isinstance(st.value, ast.Call) \
+                    and norm_name(st.value.func) == 'Counter' and len(st.value.args) == 1 and not st.value.keywords \
+                    and isinstance(st.value.args[0], (ast.GeneratorExp, ast.ListComp)) and len(st.value.args[0].generators) == 1:
+                ge = st.value.args[0]
+                g = ge.generators[0]
+                v = st.targets[0].id
+                key = ge.elt
+                inc = ast.Assign(targets=[ast.Subscript(value=ast.Name(id=v, ctx=ast.Load()), slice=copy.deepcopy(key), ctx=ast.Store())],
+                                 value=ast.BinOp(left=ast.Call(func=ast.Attribute(value=ast.Name(id=v, ctx=ast.Load()), attr='get', ctx=ast.Load()),
+                                                               args=[copy.deepcopy(key), ast.Constant(value=0)], keywords=[]), op=ast.Add(), right=ast.Constant(value=1)))
+                inner: List[ast.stmt] = [inc]
+                for c in reversed(g.ifs):
+                    inner = [ast.If(test=c, body=inner, orelse=[])]
+                loop = ast.For(target=g.target, iter=g.iter, body=inner, orelse=[])
+                init = ast.Assign(targets=[ast.Name(id=v, ctx=ast.Store())], value=ast.Dict(keys=[], values=[]))
+                for nd in (init, loop):
+                    for x in ast.walk(nd):
+                        if not hasattr(x, 'lineno'):
+                            ast.copy_location(x, st)
+                    ast.copy_location(nd, st)
+                body[i:i + 1] = [init, loop]
+                continue
+            # D10b: G = (E for y in IT) ; ... for x in G: BODY   (G used only there)   ->   for y in IT: x = E ; BODY
+            if isinstance(st, ast.For) and isinstance(st.iter, ast.Name) and isinstance(st.target, ast.Name) and not st.orelse and getattr(self, 'loads', None) is not None \
+                    and self.loads.get(st.iter.id, 0) == 1 and self.stores.get(st.iter.id, 0) == 1:
+                gdef = [(k_, o) for k_, o in enumerate(out) if isinstance(o, ast.Assign) and len(o.targets) == 1 and isinstance(o.targets[0], ast.Name)
+                        and o.targets[0].id == st.iter.id and isinstance(o.value, ast.GeneratorExp) and len(o.value.generators) == 1 and not o.value.generators[0].ifs]
+                if len(gdef) == 1:
+                    k_, o = gdef[0]
+                    g = o.value.generators[0]
+                    bind = ast.Assign(targets=[ast.Name(id=st.target.id, ctx=ast.Store())], value=o.value.elt)
+                    loop = ast.For(target=g.target, iter=g.iter, body=[bind] + list(st.body), orelse=[])
+                    for x in ast.walk(bind):
+                        if not hasattr(x, 'lineno'):
+                            ast.copy_location(x, st)
+                    ast.copy_location(bind, st)
+                    ast.copy_location(loop, st)
+                    del out[k_]
+                    out.append(loop)
+                    i += 1
+                    continue
             # D3e: for a, b in TABLE: if TEST: BODY; break  [else: ELSE]   ->   if TEST(row1): BODY(row1) elif TEST(row2): ... else: ELSE
             if isinstance(st, ast.For) and isinstance(st.target, (ast.Tuple, ast.Name)) and len(st.body) == 1 and isinstance(st.body[0], ast.If) \
                     and not st.body[0].orelse and st.body[0].body and isinstance(st.body[0].body[-1], ast.Break) \
